@@ -110,15 +110,16 @@ class SimSolver(pulp.LpSolver):
 
     name = "SimSolver"
 
-    def __init__(self, env=None, **kw):
+    def __init__(self, env=None, tie_offset=0, **kw):
         pulp.LpSolver.__init__(self, **kw)
         self.env = env
+        self.tie_offset = tie_offset  # another solver product: equally correct, breaks ties its own way
 
     def available(self):
         return True
 
     def copy(self):
-        c = SimSolver(self.env)
+        c = SimSolver(self.env, tie_offset=self.tie_offset)
         c.msg = self.msg
         return c
 
@@ -143,8 +144,8 @@ class SimSolver(pulp.LpSolver):
         variables = [model.objects[k] for k in model.names]
         keyof = {id(v): k for k, v in model.objects.items()}
         if result["status"] == "optimal":
-            chosen = result["solutions"][fault.get("tie", 0) % len(result["solutions"])]
-            info["tie_index"] = fault.get("tie", 0) % len(result["solutions"])
+            chosen = result["solutions"][(fault.get("tie", 0) + self.tie_offset) % len(result["solutions"])]
+            info["tie_index"] = (fault.get("tie", 0) + self.tie_offset) % len(result["solutions"])
         else:
             chosen = {k: 0 for k in model.names}
         if kind == "raise_after_partial":
@@ -778,6 +779,12 @@ class SimEnv:
         if "sim-api" not in self.solver_objects:
             self.solver_objects["sim-api"] = SimSolver(self)
         return self.solver_objects["sim-api"]
+
+    def other_solver(self):
+        """A second, distinct API-level solver object that picks the next of the optima (persistent for the run)."""
+        if "sim-api-other" not in self.solver_objects:
+            self.solver_objects["sim-api-other"] = SimSolver(self, tie_offset=1)
+        return self.solver_objects["sim-api-other"]
 
     def set_default(self, solver):
         pulp.LpSolverDefault = solver
